@@ -3,6 +3,8 @@ import SkfemVerif.Drv.BC
 import SkfemVerif.Drv.Quad
 import SkfemVerif.Drv.Asm
 import SkfemVerif.Drv.Poly
+import SkfemVerif.Drv.Integration
+import SkfemVerif.Drv.MeshIO
 /-
 Registry of driver ops contributed by the per-area files: add an import and `++ xxxOps`.
 -/
@@ -10,6 +12,6 @@ open Lean
 namespace Drv
 
 def allOps : List (String × (Json → Option Json)) :=
-  bcOps ++ quadOps ++ asmOps ++ polyOps
+  bcOps ++ quadOps ++ asmOps ++ polyOps ++ integrationOps ++ meshioOps
 
 end Drv
